@@ -221,9 +221,11 @@ Definition implode_records (f : bytes) (sep : ascii) (rs : list record) : list r
   let '(passed, st) := implode_records_from f [] rs in
   passed ++ map (fun b => put f (join_with [sep] (snd b)) (fst b)) (buckets_of st).
 
-(* implodeValuesAcrossFields: fields named f_<digits> are unlinked, their values joined, and the result linked
-   where the first of them was (PrependReference when that was the head -- it overwrites an existing f --,
-   PutReferenceAfter otherwise -- it does not look) *)
+(* implodeValuesAcrossFields: fields named f_<digits> are unlinked, their values joined, and the result is linked after
+   "previousEntry".  previousEntry is set from the Prev pointer of a matching entry while it is still nil, so a match
+   at the head of the record (Prev = nil) leaves it unset and the NEXT match that has a predecessor decides: the new
+   field goes after the non-matching run that follows the leading matches; only when there is no such later match is it
+   prepended (PrependReference overwrites an existing f; PutReferenceAfter does not look) *)
 Definition nest_suffix_ok (f k : bytes) : bool :=
   prefixb (f ++ ["_"]) k &&
   (let d := skipn (List.length f + 1) k in negb (beqb d []) && forallb is_digit d).
@@ -231,6 +233,11 @@ Fixpoint take_until_match (f : bytes) (r : record) : record * record :=
   match r with
   | [] => ([], [])
   | (k, v) :: t => if nest_suffix_ok f k then ([], r) else let '(a, b) := take_until_match f t in ((k, v) :: a, b)
+  end.
+Fixpoint drop_matching (f : bytes) (r : record) : record :=
+  match r with
+  | [] => []
+  | (k, v) :: t => if nest_suffix_ok f k then drop_matching f t else r
   end.
 Definition implode_fields (f : bytes) (sep : ascii) (r : record) : record :=
   let '(pre, rest) := take_until_match f r in
@@ -241,7 +248,12 @@ Definition implode_fields (f : bytes) (sep : ascii) (r : record) : record :=
   | _ =>
     let v := join_with [sep] (values matching) in
     match pre with
-    | [] => if has f post then setv f v post else (f, v) :: post
+    | [] =>
+      let '(mid, rest2) := take_until_match f (drop_matching f rest) in
+      match rest2 with
+      | [] => if has f post then setv f v post else (f, v) :: post
+      | _ => mid ++ (f, v) :: filter (fun kv => negb (nest_suffix_ok f (fst kv))) rest2
+      end
     | _ => pre ++ (f, v) :: post
     end
   end.
